@@ -11,17 +11,17 @@ ID = 'C17'
 LEVEL = 'exploration'
 RULE = ('random trees over keys {a,b,c} (depth <=3, thorough <=4) and paths over {a,b,c,x,..} '
         '(length <=4, thorough <=6) incl. empty paths and paths into missing keys; the same shapes '
-        'built as Store trees; non-trivial = tree with >=3 nodes and a dictionary path of length >=2 '
+        'built as Store trees, half of them re-checked after a subtree was moved with the real Store.move; non-trivial = tree with >=3 nodes and a dictionary path of length >=2 '
         'or a relative Store path containing ".."; distinct = distinct case spec')
 PLAN = {'quick': {'n': 60000, 'min_cases': 2000}, 'thorough': {'n': 400000, 'min_cases': 20000}}
-REQUIRED_ORACLES = ['assoc_get', 'delete_in', 'update_in', 'enumerations', 'walk_vs_lexical',
+REQUIRED_ORACLES = ['after_move', 'assoc_get', 'delete_in', 'update_in', 'enumerations', 'walk_vs_lexical',
                     'path_to', 'path_for']
 ANCHORS = ['vivarium.library.topology:normalize_path', 'vivarium.library.topology:get_in',
            'vivarium.library.topology:delete_in', 'vivarium.library.topology:assoc_path',
            'vivarium.library.topology:update_in', 'vivarium.library.topology:paths_to_dict',
            'vivarium.library.topology:dict_to_paths', 'vivarium.core.store:Store.get_path',
            'vivarium.core.store:Store.path_for', 'vivarium.core.store:Store.path_to',
-           'vivarium.core.store:Store.top', 'vivarium.core.store:hierarchy_depth',
+           'vivarium.core.store:Store.top', 'vivarium.core.store:Store.move', 'vivarium.core.store:Store.add_node', 'vivarium.core.store:hierarchy_depth',
            'vivarium.core.process:assoc_in']
 ASSUMPTIONS = ['dictionary helpers are not asserted for paths that run through a leaf value',
                'Store laws are checked on trees of plain variables (no processes)']
@@ -47,7 +47,11 @@ def gen(r, tier, i):
     a = r.choice(nodes)
     b = r.choice(nodes)
     rel = [r.choice(['a', 'b', 'c', '..', '..']) for _ in range(r.randint(0, maxl))]
-    return {'tree': d, 'path': p, 'a': list(a), 'b': list(b), 'rel': rel, 'v': r.randint(100, 999)}
+    branches = [q for q in dict_nodes(d)]
+    move = None
+    if r.random() < 0.5 and len(nodes) > 3:
+        move = [list(r.choice([q for q in nodes if q])), list(r.choice(branches))]
+    return {'tree': d, 'path': p, 'a': list(a), 'b': list(b), 'rel': rel, 'v': r.randint(100, 999), 'move': move}
 
 
 def model_delete(d, p):
@@ -177,6 +181,52 @@ def run(spec):
         exists = nf in nodes
         V.check('lexical_model', (lx is not None) == exists and (lx is None or lx is nodes[nf]),
                 ('root.get_path(normal form) disagrees with the tree', d, nf))
+    # the same laws on a hierarchy that changes: a subtree is moved (real Store.move), then every node is
+    # asked again, deepest first (nodes were all asked once before the move)
+    mv = spec.get('move')
+    if mv and tuple(mv[0]) in nodes and tuple(mv[1]) in nodes:
+        import types
+        src, dst = tuple(mv[0]), tuple(mv[1])
+        ok_move = src and dst[:len(src)] != src and nodes[dst].inner and src[-1] not in nodes[dst].inner \
+            and src[:-1] != dst
+        if ok_move:
+            for q, n in nodes.items():
+                n.path_for()
+                if a in nodes:
+                    n.path_to(nodes[a])
+            parent = nodes[src[:-1]]
+            fake_process = types.SimpleNamespace(topology={'T': dst}, outer=s)
+            try:
+                parent.move({'source': (src[-1],), 'target': ('T',)}, fake_process)
+                moved = True
+            except Exception as e:
+                moved = False
+                V.check('after_move', False, ('Store.move raised', d, src, dst, repr(e)[:200]))
+            if moved:
+                stats['moves'] = 1
+                fresh = {(): s}
+
+                def coll2(st, q):
+                    for k, c in st.inner.items():
+                        fresh[q + (k,)] = c
+                        coll2(c, q + (k,))
+                coll2(s, ())
+                order = sorted(fresh, key=lambda q: -len(q))
+                for q in order:
+                    n = fresh[q]
+                    got = n.path_for()
+                    V.check('after_move', got == q and s.get_path(got) is n,
+                            lambda: ('after a move, path_for() of the node at %r is %r' % (q, got), d, src, dst))
+                tgt = fresh[order[-1]] if order else s
+                for q in order[:6]:
+                    n = fresh[q]
+                    for other in (s, fresh[order[0]]):
+                        try:
+                            pt = n.path_to(other)
+                            V.check('after_move', n.get_path(pt) is other,
+                                    lambda: ('after a move, path_to() does not reach the target', q, pt, d, src, dst))
+                        except Exception as e:
+                            V.check('after_move', False, ('after a move, following path_to() raised', q, repr(e)[:150]))
     nontrivial = (len(dict_nodes(d)) + len(lv) >= 4) and (len(p) >= 2 or '..' in rel)
     return {'viol': list(V), 'evals': V.evals, 'stats': stats, 'nontrivial': nontrivial,
             'classes': ['path_len_%d' % len(p), 'rel_dotdot' if '..' in rel else 'rel_plain',
